@@ -3,6 +3,7 @@ import itertools
 import json
 
 import common
+import pipeline
 import tlc
 import sp
 
@@ -89,6 +90,7 @@ def run(pid, tier, seed):
                        "fallback; distinct by input; each requires a decision (use / add)")
     traces = [dict(r, steps=[1]) for r in recs]
     res, runs = tlc.validate_parallel("SocksPortTrace", "SocksPortTrace.cfg", traces, nproc=8, chunk=600, timeout=1500)
+    pipeline.selftest_from(rep, "SocksPortTrace", "SocksPortTrace.cfg", traces, res)
     for r in runs:
         rep.cov["states"] += r.distinct
         rep.cov["transitions"] += r.generated
